@@ -7,8 +7,10 @@ STATUS = {}
 
 
 def run(ctx):
-    from checks import c01_theorems
-    ctx.prove(c01_theorems.THEOREMS, c01_theorems.STATUS)
+    ctx.prove(ctx.theorems(), {"LoomVerif.C01.C01_full_false": "refuted-full-statement",
+                               "LoomVerif.C01.C01_full_false_witness": "refuted-full-statement",
+                               "LoomVerif.C01.Dep.arc_inspect_dec_not_independent": "refuted-full-statement",
+                               "LoomVerif.C01.Dep.tryrecv_send_not_independent": "refuted-full-statement"})
     ctx.build_harness()
     programs = families.c01_family(ctx.seed, ctx.quick)
     cap = 3000 if ctx.quick else 20000
@@ -38,7 +40,7 @@ def run(ctx):
             ctx.sample({"program": p, "iterations": len(its), "outcomes": sorted(set(lvlib.outcome_str(i) for i in its))[:4]})
     if dis and not unlisted:
         for d in dis[:3]:
-            ctx.violation("correspondence", {"disagreement": d, "rests_on_it": c01_theorems.THEOREMS},
+            ctx.violation("correspondence", {"disagreement": d, "rests_on_it": ctx.theorems()},
                           found_input=False, program=d["program"])
     ctx.witness_check()
     ctx.cov["programs"] = len(programs)
